@@ -63,6 +63,7 @@ struct Knobs {
 	int wfEvery		= 7;	// in-callback well-formedness check every n-th eligible callback
 	int palette		= 0;	// rng palette: 0 mixed, 1 hostile (near 0 / near 1 / dyadic boundaries)
 	int zeroUtil	= 1;	// allow zero utilities where the precondition stays satisfied
+	int fineUtil	= 0;	// utilities with full 24-bit mantissas (sums and products round) instead of multiples of 1/8
 	int pendq		= 1;	// log isPending vectors in the first guard of single-request rounds
 	int structDump	= 0;	// dump structure() / activityHistory() after each operation
 	int logAnswers	= 0;	// record select/rank/utility callbacks too ('a' lines)
@@ -95,6 +96,7 @@ struct Probe {
 	bool		noCancel = false;	// guards never cancel (first activation)
 	bool		activating = false;	// inside the first activation: the machine is not activated yet
 	int			guardCalls = 0;		// per operation
+	long		lastPendSig = -2;	// per operation: the single pending request the previous guard call saw (a new one = a new round)
 	uint64_t	callbacks = 0, wfChecks = 0, wfViolations = 0;
 	uint64_t	cbCounter = 0;
 	const void*	expectThis[1024] = {};
@@ -113,7 +115,7 @@ struct Probe {
 	int ansSelect(int state, int width) const { return (int)(h(state, 1) % (uint64_t)(width > 0 ? width : 1)); }
 	int ansRank(int state) const {
 		const int par = sh->parent[state];
-		int r = (int)(h(state, 2) % 3);
+		int r = k.fineUtil ? (int)(h(state, 2) % 5 == 0) : (int)(h(state, 2) % 3);		// fine mode: mostly one rank, so that most candidates compete
 		(void)par;
 		return r;
 	}
@@ -121,7 +123,7 @@ struct Probe {
 	// first sub-state of a utilitarian/random region and whose rank does not exceed the first
 	// sub-state's rank (keeps "positive top-rank sum" true by construction).
 	int ansUtil8(int state) const {
-		int u = (int)(h(state, 3) % 9);			// 0..8
+		int u = (int)(h(state, 3) % (k.fineUtil ? 3u : 9u));			// 0..8 (fine mode: only zero / non-zero matters, zero more often)
 		if (u == 0) {
 			bool ok = false;
 			if (k.zeroUtil) {
@@ -135,11 +137,17 @@ struct Probe {
 		}
 		return u;
 	}
+	float ansUtil(int state) const {
+		const int u8 = ansUtil8(state);
+		if (k.fineUtil && u8 != 0) return (float)((h(state, 5) & 0xffffffu) + 1u) * (1.0f / 16777216.0f);
+		return 0.125f * (float)u8;
+	}
 	float ansRng() {
 		const int d = ++draws;
 		const uint64_t x = h(1000 + d, 99);
 		static const float hostile[] = { 0.0f, 0.99999994f, 0.9999999f, 0.5f, 0.25f, 0.75f, 0.125f, 0.875f, 0.375f, 0.625f, 0.33333334f, 0.6666667f, 1.17549435e-38f, 0.49999997f, 0.50000006f, 0.9f };
-		if (k.palette == 1 || (x & 3) == 0) return hostile[(x >> 8) % 16];
+		if (k.palette == 2) { if ((x >> 8) & 1) return 0.99999994f; if ((x >> 9) & 1) return 0.9999999f; }		// mostly just below 1: the cumulative walk ends by rounding
+		else if (k.palette == 1 || (x & 3) == 0) return hostile[(x >> 8) % 16];
 		return (float)((x >> 16) & 0xffffff) / 16777216.0f;	// uniform 24-bit
 	}
 };
